@@ -110,9 +110,14 @@ def add(src, sid):
     return 0
 
 
-def rerun(ids):
+def rerun(ids, jobs=1):
     base = os.path.join(VERIF, 'seeded')
     ids = ids or sorted(os.listdir(base))
+    if jobs > 1:
+        import concurrent.futures
+        with concurrent.futures.ThreadPoolExecutor(max_workers=jobs) as ex:
+            list(ex.map(lambda sid: rerun([sid]), ids))
+        return
     for sid in ids:
         d = os.path.join(base, sid)
         if not os.path.exists(os.path.join(d, 'patch.diff')):
@@ -137,6 +142,12 @@ if __name__ == '__main__':
     if len(sys.argv) >= 4 and sys.argv[1] == 'add':
         sys.exit(add(sys.argv[2], sys.argv[3]))
     elif len(sys.argv) >= 2 and sys.argv[1] == 'run':
-        rerun(sys.argv[2:])
+        args = sys.argv[2:]
+        jobs = 1
+        if '--jobs' in args:
+            i = args.index('--jobs')
+            jobs = int(args[i + 1])
+            args = args[:i] + args[i + 2:]
+        rerun(args, jobs)
     else:
         print(__doc__)
